@@ -787,6 +787,9 @@ func RegexMatch(env envs.Environment, text *types.XText, args ...types.XValue) t
 	if err != nil {
 		return types.NewXErrorf("invalid regular expression")
 	}
+	if xerr := CheckRegexCost(`(?mi)`+pattern.Native(), text.Native()); xerr != nil {
+		return xerr
+	}
 
 	groups := exp.FindStringSubmatch(text.Native())
 
